@@ -399,6 +399,11 @@ type env0 struct {
 
 var shared, other *env0 // two importer/file-set pairs per process (creating one costs seconds: it loads the builtin packages)
 
+// freshFset pairs the importer of e with a brand-new file set: positions start
+// over, as they do for every build a long-lived process (a language server, a
+// watcher) makes with the importer it keeps.
+func freshFset(e *env0) *env0 { return &env0{fset: token.NewFileSet(), imp: e.imp} }
+
 func newEnv() *env0 {
 	fset := token.NewFileSet()
 	return &env0{fset: fset, imp: tool.NewImporter(nil, &env.XGo{Version: "1.0", Root: repoRoot}, fset)}
@@ -476,6 +481,7 @@ type c08run struct {
 	reps    int
 	fresh   bool // scheduled compiles use the process's second importer/file set instead of the canonical run's
 	siteSel int  // 0: perturb every site; k>0: only sites whose hash%4 == k-1
+	brandNew bool   // every compile of the run (the canonical one too, and the package compiled in between) gets a brand-new file set next to the shared importer
 	noise   *pkgSrc // another package (with overlapping identifiers) compiled in between, same importer and file set
 	work    []string
 	whash   uint64
@@ -527,6 +533,41 @@ func (c08) NewRun(plan *simrt.Source, job *harn.Job) harn.Run {
 	}
 	if plan.Chance(150) {
 		r.pkg, r.noise = genShadowedBuiltin(plan)
+	}
+	hasGo := false
+	for n := range r.pkg.files {
+		if strings.HasSuffix(n, ".go") {
+			hasGo = true
+		}
+	}
+	if hasGo && plan.Chance(250) {
+		// separate builds in one process: the importer is kept, every build has a new
+		// file set (positions start over), and another package with the SAME file
+		// names is compiled in between
+		r.brandNew = true
+		r.reps = 2
+		// the other package: the same files, except that every Go file differs in
+		// one digit (same length, so every position in it is the same too) — an
+		// earlier or later revision of this very package
+		r.noise = &pkgSrc{name: r.pkg.name + "-other-revision", files: map[string]string{}}
+		for n, src := range r.pkg.files {
+			if strings.HasSuffix(n, ".go") {
+				// a change the XGo files can feel: a result type (same length), else a constant's value
+				if i := strings.Index(src, ") int {"); i >= 0 {
+					src = src[:i] + ") any {" + src[i+7:]
+				} else {
+					b := []byte(src)
+					for i := len(b) - 1; i >= 0; i-- {
+						if b[i] >= '0' && b[i] <= '8' && (i == 0 || b[i-1] == ' ' || b[i-1] == '(') {
+							b[i]++
+							break
+						}
+					}
+					src = string(b)
+				}
+			}
+			r.noise.files[n] = src
+		}
 	}
 	var names []string
 	for n := range r.pkg.files {
@@ -588,7 +629,20 @@ func (r *c08run) RunSeq(sched *simrt.Source, keepLog bool) *simrt.Result {
 	if shared == nil {
 		shared = newEnv()
 	}
-	canon := compile(r.pkg, names, shared)
+	cenv := shared
+	if r.brandNew {
+		// the other package is also built BEFORE the first build of this one, so
+		// that whatever it leaves behind can meet the canonical compile as well
+		var nn []string
+		for n := range r.noise.files {
+			nn = append(nn, n)
+		}
+		sort.Strings(nn)
+		compile(r.noise, nn, freshFset(shared))
+		cenv = freshFset(shared)
+		r.fresh = false
+	}
+	canon := compile(r.pkg, names, cenv)
 	r.nerrs = len(canon.errs)
 	if canon.pan != "" {
 		// A compiler crash is the subject of another property (C07); here it is
@@ -630,6 +684,10 @@ func (r *c08run) RunSeq(sched *simrt.Source, keepLog bool) *simrt.Result {
 			}
 			e = other
 		}
+		if r.brandNew {
+			e = freshFset(shared)
+			res.Faults["fresh-file-set"]++
+		}
 		if r.noise != nil {
 			// state left behind by compiling another package must not leak into this one
 			var nn []string
@@ -639,6 +697,9 @@ func (r *c08run) RunSeq(sched *simrt.Source, keepLog bool) *simrt.Result {
 			sort.Strings(nn)
 			compile(r.noise, nn, e)
 			res.Faults["other-package-compiled-in-between"]++
+			if r.brandNew {
+				e = freshFset(shared)
+			}
 		}
 		got := compile(r.pkg, listing, e)
 		detmap.SetOrder(nil)
